@@ -2,8 +2,8 @@ package main
 
 import (
 	"bytes"
-	"encoding/json"
 	"encoding/base64"
+	"encoding/json"
 	"fmt"
 	"os"
 	"path/filepath"
@@ -811,7 +811,7 @@ func (c *c19Ctx) execute(s *Scenario, keepDir bool) (out *ScenarioOutcome, viol 
 				if !filepath.IsAbs(da) {
 					da = filepath.Join(W, da)
 				}
-				cmd = append(cmd, "strace", "-f", "-o", logp, "-e", "trace=openat,read,write,newfstatat,fstat,close", "-P", sa, "-P", da)
+				cmd = append(cmd, "strace", "-f", "-o", logp, "-e", "trace="+tracedSyscalls, "-P", sa, "-P", da)
 			case "strace":
 				target := wp.SrcArg
 				if f.Target == "dst" {
@@ -820,7 +820,7 @@ func (c *c19Ctx) execute(s *Scenario, keepDir bool) (out *ScenarioOutcome, viol 
 				if !filepath.IsAbs(target) {
 					target = filepath.Join(W, target)
 				}
-				cmd = append(cmd, "strace", "-f", "-o", logp, "-e", "trace=openat,read,write,newfstatat,fstat,close",
+				cmd = append(cmd, "strace", "-f", "-o", logp, "-e", "trace="+tracedSyscalls,
 					"-e", fmt.Sprintf("inject=%s:error=%s:when=%d", f.Syscall, f.Errno, f.When), "-P", target)
 			}
 		}
@@ -938,7 +938,11 @@ func (c *c19Ctx) execute(s *Scenario, keepDir bool) (out *ScenarioOutcome, viol 
 	return out, viol, nil
 }
 
-var traceRe = regexp.MustCompile(`^\d+\s+(openat|read|write|newfstatat|fstat|close)\((.*)$`)
+// Every file syscall an implementation of the output/input path might use, so that the fault
+// grid (derived from the fault-free trace) follows the implementation if it changes.
+const tracedSyscalls = "openat,read,pread64,write,pwrite64,writev,newfstatat,fstat,close,ftruncate,fsync,fdatasync,lseek,rename,renameat,renameat2,unlink,unlinkat,linkat,symlinkat,fchmod,fchmodat,mkdirat"
+
+var traceRe = regexp.MustCompile(`^\d+\s+(openat|read|pread64|write|pwrite64|writev|newfstatat|fstat|close|ftruncate|fsync|fdatasync|lseek|rename|renameat|renameat2|unlink|unlinkat|linkat|symlinkat|fchmod|fchmodat|mkdirat)\((.*)$`)
 var traceRetRe = regexp.MustCompile(`=\s+(-?\d+)`)
 
 // parseTrace turns a strace log (filtered with -P source -P destination) into the ordered list of
@@ -955,7 +959,7 @@ func parseTrace(log string, wp *worldPaths) []string {
 		sys, rest := m[1], m[2]
 		target := ""
 		switch sys {
-		case "openat", "newfstatat":
+		case "openat", "newfstatat", "rename", "renameat", "renameat2", "unlink", "unlinkat", "linkat", "symlinkat", "fchmodat", "mkdirat":
 			if strings.Contains(rest, "\""+filepath.Base(srcA)+"\"") || strings.Contains(rest, srcA+"\"") {
 				target = "src"
 			}
